@@ -113,7 +113,28 @@ func c10Shapes(r *rand.Rand) *Node {
 			return and(bad, b(), ok)
 		}
 	}
-	switch r.Intn(12) {
+	switch r.Intn(14) {
+	case 12, 13:
+		// An and/or whose LAST operand is a constant sub-expression that folds to a non-boolean (a number, a version): no
+		// constant operand decides it, so the variables and calls before it stay, and when none of them decides at run
+		// time the operator is applied and reports the ill-typed operand. (Last, three operands, no boolean literal and
+		// no Reordering - see illTypedAndOr: elsewhere a deciding operand may skip the operator's check, the open C18 finding.)
+		nb := []*Node{
+			Op("+", TInt, Lit(int64(1)), Lit(int64(2))), Op("*", TInt, k(), k()), Op("t_version", TInt, Lit("1.2.3")),
+			Op("sz", TInt), Op("-", TInt, Op("sz", TInt), k()), Op("date", TInt, Lit("2021-02-03")), Op("ss", TStr, Lit("a")),
+		}[r.Intn(7)]
+		first := b()
+		if r.Intn(2) == 0 {
+			first = Op(">", TBool, i(), k())
+		}
+		second := Op("cb", TBool, b())
+		if r.Intn(3) == 0 {
+			second = Op("cpos", TBool, i())
+		}
+		if r.Intn(2) == 0 {
+			return and(first, second, nb)
+		}
+		return or(first, second, nb)
 	case 0:
 		return and(Lit(false), x())
 	case 1:
@@ -139,6 +160,19 @@ func c10Shapes(r *rand.Rand) *Node {
 	default:
 		return or(x(), and(b(), Lit(false)), If(x(), b(), b()))
 	}
+}
+
+// illTypedAndOr: the root is an and/or whose last operand is a constant sub-expression folding to a non-boolean.
+func illTypedAndOr(n *Node, declared map[string]bool) bool {
+	if !n.IsAndOr() || len(n.Ch) < 3 {
+		return false
+	}
+	v, ok := refFold(n.Ch[len(n.Ch)-1], declared)
+	if !ok {
+		return false
+	}
+	_, isBool := v.(bool)
+	return !isBool
 }
 
 // refFold: the reference folder. Returns (value, decided) for a source sub-tree
@@ -365,7 +399,14 @@ func c10Run(w *W, idx int) {
 	})
 
 	bs := genBindings(r, tree, 3, 0)
+	illTyped := stratum == "shapes" && illTypedAndOr(tree, declared)
+	if illTyped {
+		w.Inc("andor_with_nonboolean_constant_last")
+	}
 	for _, o := range allOptSets() {
+		if illTyped && o&OptRO != 0 {
+			continue // Reordering may move the ill-typed operand ahead of a deciding one (C18's open finding then applies)
+		}
 		cfg := cfgFor(tree, o, r.Intn(2) == 0)
 		v, ok := compileVariant(w, tree, src, cfg, "c10")
 		if !ok {
